@@ -76,11 +76,18 @@ def handle (args : List String) (impl : String) : Verdict :=
         | some flat =>
           -- "d": every node below the exported one is deleted after the export (its edge gets tombstone 1 at time 5000)
           let delOps : List Op := if del then (flat.filter (fun x => decide (1 ≤ x.1))).map (fun x =>
-            Op.ep x.2.id x.2.parent [{ type := tombstoneT, value := 4607182418800017408, time := 5000 }]) else []
+            Op.ep x.2.id x.2.parent [{ type := tombstoneT, value := 4607182418800017408, time := 5000 }]) ++
+            -- and every point of the exported node itself is deleted (tombstone 1, time 5000)
+            (match (ptsOf stA expId).map (fun q => ({ type := q.type, key := q.key, tomb := 1, time := 5000 } : Store.Point)) with
+             | [] => []
+             | dps => [Op.np expId dps]) else []
           -- target state: the same instance, or a fresh one
           let (stT, _) := if _where == "a" then runOps stA (hgrp ++ delOps) else runOps C06.st0 hgrp
           let hostile := flat.any (fun x => x.2.pts.any yamlHostile || x.2.epts.any yamlHostile)
-          let res := importNodes isDel freshId stT top flat (mode == "p") 1000000
+          -- the YAML file carries no time stamps: what ImportNodes sends is stamped by the store at the import
+          let noTime := fun (ps : List Store.Point) => ps.map (fun q => { q with time := 0 })
+          let flatFile : Flat := flat.map (fun x => (x.1, { x.2 with pts := noTime x.2.pts, epts := noTime x.2.epts }))
+          let res := importNodes isDel freshId stT top flatFile (mode == "p") 1000000
           let m := match res with
             | .ok st' => dump st' top (mode == "n")
             | .err "ids" => "err ids"
